@@ -94,7 +94,7 @@ def r12_1(run):
     # the quoter is applied to every value and to nothing else
     defs = local_defs(sc)
     vq = [n for n in walk_unit(sc) if isinstance(n, ast.ListComp) and isinstance(n.elt, ast.Call) and dotted(n.elt.func) == q.name]
-    ok = len(vq) == 1 and dotted(vq[0].generators[0].iter) == 'values'
+    ok = len(vq) == 1 and isinstance(vq[0].generators[0].iter, ast.Name)
     run.ob('R12.1', sc, sc.node, 'every value goes through the quoter', ok, slot='applied', message='maybe_quote is not applied to the values list')
 
 
@@ -137,7 +137,8 @@ def r12_2(run):
         g = cfg_of(sc)
         # the guard looks at the stringified arguments (keys and values alike)
         gens = [n for n in walk_unit(sc) if isinstance(n, (ast.GeneratorExp, ast.ListComp)) and any(isinstance(c, ast.Constant) and c.value in ('\r', '\n') for c in ast.walk(n))]
-        okv = any(dotted(gn.generators[0].iter) in ('strargs', 'args') or 'keys' in src(gn.generators[0].iter) for gn in gens) or not gens
+        allargs = set([sc.node.args.vararg.arg if sc.node.args.vararg else '']) | set(names_defined_by(sc, lambda v: isinstance(v, ast.ListComp) and 'str(' in src(v.elt) and dotted(v.generators[0].iter) == (sc.node.args.vararg.arg if sc.node.args.vararg else None)))
+        okv = any(dotted(gn.generators[0].iter) in allargs for gn in gens) or not gens
         run.ob('R12.2', sc, sc.node, 'the CR/LF test covers keys and values', okv, slot='crlf-covers', message='the CR/LF test only looks at %s' % [src(gn.generators[0].iter) for gn in gens])
 
 
@@ -164,17 +165,27 @@ def r12_3(run):
     run.ob('R12.3', sc, sc.node, 'each item is key=value', '%s=%s' in fmts or '{}={}' in fmts, slot='item-format', message='item formats: %s' % fmts)
     # keys = even positions, values = odd positions, same order
     ranges = {}
-    for name in ('keys', 'values'):
-        for d in defs.get(name, []):
+    for name, ds in defs.items():
+        for d in ds:
             if d[0] == 'expr' and isinstance(d[1], ast.ListComp):
                 it = d[1].generators[0].iter
                 if isinstance(it, ast.Call) and dotted(it.func) == 'range' and len(it.args) == 3:
                     ranges[name] = (const(it.args[0]), const(it.args[2]), src(d[1].elt))
-    ok = ranges.get('keys', (None,))[:2] == (0, 2) and ranges.get('values', (None,))[:2] == (1, 2)
+    # the item formatter pairs (even-position name, odd-position name) in that order
+    even = [n for n, r in ranges.items() if r[:2] == (0, 2)]
+    odd = [n for n, r in ranges.items() if r[:2] == (1, 2)]
+    pair_ok = False
+    for n in allnodes:
+        if isinstance(n, ast.Call) and dotted(n.func) in ('map', 'zip') and len(n.args) >= 2:
+            tail = [dotted(a) for a in n.args[-2:]]
+            if len(even) == 1 and len(odd) == 1 and tail == [even[0], odd[0]]:
+                pair_ok = True
+    ok = len(even) == 1 and len(odd) == 1 and pair_ok
     run.ob('R12.3', sc, sc.node, 'keys are the even, values the odd arguments, in order', ok, slot='pairing', message='pairing ranges: %s' % ranges)
     # str() conversion of non-string values
-    sa = [d for d in defs.get('strargs', []) if d[0] == 'expr']
-    ok = bool(sa) and 'str(' in src(sa[0][1]) and 'args' in src(sa[0][1])
+    va = sc.node.args.vararg.arg if sc.node.args.vararg else None
+    sa = [d for ds in defs.values() for d in ds if d[0] == 'expr' and isinstance(d[1], ast.ListComp) and 'str(' in src(d[1].elt) and dotted(d[1].generators[0].iter) == va]
+    ok = bool(sa)
     run.ob('R12.3', sc, sc.node, 'non-string values are converted with str()', ok, slot='str-conversion', message='strargs = %s' % [src(d[1]) for d in sa])
     # odd number of arguments is refused before anything is sent
     tests = [t for t in g.live if t.kind == 'test' and '% 2' in src(t.ast)]
